@@ -512,7 +512,7 @@ func lanesHeader(w *World, r *Report, h *pktHeader) {
 		res := map[string]*agg{}
 		checked := 0
 		for _, p := range paths {
-			if n := len(p.Ret); n > 0 && p.Ret[n-1] != nil && (strings.HasPrefix(p.Ret[n-1].Opaque, "call:errors.") || strings.HasPrefix(p.Ret[n-1].Opaque, "call:fmt.")) {
+			if n := len(p.Ret); n > 0 && p.Ret[n-1] != nil && rejectingRet(w, dec, p.Ret[n-1].Opaque) {
 				continue // rejecting path
 			}
 			stored := map[string]bool{}
@@ -818,7 +818,7 @@ func lanesEthernet(w *World, r *Report) {
 		seen := map[string]int{}
 		var bad []string
 		for _, p := range paths {
-			if n := len(p.Ret); n > 0 && p.Ret[n-1] != nil && (strings.HasPrefix(p.Ret[n-1].Opaque, "call:errors.") || strings.HasPrefix(p.Ret[n-1].Opaque, "call:fmt.")) {
+			if n := len(p.Ret); n > 0 && p.Ret[n-1] != nil && rejectingRet(w, dec, p.Ret[n-1].Opaque) {
 				continue
 			}
 			if errOnly(p) {
@@ -1413,4 +1413,17 @@ func init() {
 			}
 		}
 	}
+}
+
+// rejectingRet: the last result of a decoder path is a freshly built error or a sentinel error of the package.
+func rejectingRet(w *World, fi *FuncInfo, opaque string) bool {
+	if strings.HasPrefix(opaque, "call:errors.") || strings.HasPrefix(opaque, "call:fmt.") {
+		return true
+	}
+	if strings.HasPrefix(opaque, "ident:") && fi != nil {
+		if v, ok := fi.Pkg.Types.Scope().Lookup(strings.TrimPrefix(opaque, "ident:")).(*types.Var); ok {
+			return w.sentinelError(v)
+		}
+	}
+	return false
 }
